@@ -50,20 +50,21 @@ def overlapping():
     """definitions whose spellings OVERLAP (one input matches two variants): the property quantifies over every field-less
     enum, so the phf parser must still agree with the plain one (declaration order decides)"""
     out = []
-    sp = ["ab", "Ab", "aB", "AB"]
-    for x in sp:
-        for y in sp:
-            for a in (False, True):
-                for b in (False, True):
-                    va = Variant("First", "unit", [], [ser(x)] + ([aci(True, explicit=False)] if a else []))
-                    vb = Variant("Second", "unit", [], [ser(y)] + ([aci(True, explicit=True)] if b else []))
-                    out.append(Item("E", [va, vb]))
-                    # the same with `V()` / `V {}` shapes (no data, so use_phf accepts them): the shape must not change the bookkeeping
-                    for ka, kb in (("tuple", "unit"), ("unit", "named"), ("named", "tuple")):
-                        if (sp.index(x) + sp.index(y)) % 3 == ("tuple", "unit", "named").index(ka):
-                            va2, vb2 = copy.deepcopy(va), copy.deepcopy(vb)
-                            va2.kind, vb2.kind = ka, kb
-                            out.append(Item("E", [va2, vb2]))
+    # (two-letter spellings; ONE-letter spellings and one letter next to a non-letter: a "lower + upper key cover every form" shortcut, seed C16_r14)
+    for sp in (["ab", "Ab", "aB", "AB"], ["x", "X"], ["x1", "X1"], ["-q", "-Q"]):
+        for x in sp:
+            for y in sp:
+                for a in (False, True):
+                    for b in (False, True):
+                        va = Variant("First", "unit", [], [ser(x)] + ([aci(True, explicit=False)] if a else []))
+                        vb = Variant("Second", "unit", [], [ser(y)] + ([aci(True, explicit=True)] if b else []))
+                        out.append(Item("E", [va, vb]))
+                        # the same with `V()` / `V {}` shapes (no data, so use_phf accepts them): the shape must not change the bookkeeping
+                        for ka, kb in (("tuple", "unit"), ("unit", "named"), ("named", "tuple")):
+                            if (sp.index(x) + sp.index(y)) % 3 == ("tuple", "unit", "named").index(ka):
+                                va2, vb2 = copy.deepcopy(va), copy.deepcopy(vb)
+                                va2.kind, vb2.kind = ka, kb
+                                out.append(Item("E", [va2, vb2]))
     # spellings equal under UNICODE case mapping only (not under ASCII folding) are distinct keys and distinct guard arms
     for a, b in (("k", "\u212a"), ("é", "É"), ("ss", "ß"), ("s", "\u017f"), ("i", "\u0131"), ("ä-x", "Ä-X")):
         for x, y in ((a, b), (b, a)):
